@@ -2342,6 +2342,22 @@ pub fn zst_pair_probe(cx: &mut Ctx, hist: u64) {
         if a != k || b != k || c != k || l0 != k || !first || l1 != k - 1 {
             pv(&["C10"], "into_iter", format!("{} zero-sized pairs: into_iter().count() = {}, into_keys {}, into_values {}, len() {} then {} after one next()", k, a, b, c, l0, l1));
         }
+        ledger::set_ctx(hist, 5, "insert_unchecked(zero-sized pairs)");
+        {
+            // all-equal keys: the second insert_unchecked finds the key (inside the contract: key present)
+            z_set_eq(true);
+            let mut m: Map<Z, (), 4> = Map::new();
+            // SAFETY: the map is not full
+            let first = unsafe { m.insert_unchecked(Z::new(), ()) };
+            // SAFETY: the key is present
+            let second = unsafe { m.insert_unchecked(Z::new(), ()) };
+            let third = m.insert(Z::new(), ());
+            if first.is_some() || second.is_none() || third.is_none() || m.len() != 1 || m.iter().count() != 1 {
+                pv(&["C18", "C05"], "insert_unchecked", format!("zero-sized pairs, all keys equal: insert_unchecked returned {:?} then {:?}, insert {:?}; len() = {}, iter() yields {} (insert gives None, Some(()), Some(()), 1, 1)", first, second, third, m.len(), m.iter().count()));
+            }
+            drop(m);
+            z_set_eq(false);
+        }
         ledger::set_ctx(hist, 4, "retain/clone/clear(zero-sized pairs)");
         let mut m = fill(k);
         let mut calls = 0;
@@ -2464,7 +2480,7 @@ pub fn history<F: Fam, const N: usize>(cx: &mut Ctx, hist: u64, mut rng: Rng, ma
     if prop == "C19" && hist % 16 == 0 {
         unit_value_fmt_probe(cx, hist);
     }
-    if F::NAME == "zst" && hist % 4 == 0 && matches!(prop.as_str(), "C01" | "C02" | "C05" | "C09" | "C10" | "C15") {
+    if F::NAME == "zst" && hist % 4 == 0 && matches!(prop.as_str(), "C01" | "C02" | "C05" | "C09" | "C10" | "C15" | "C18") {
         zst_pair_probe(cx, hist);
     }
 }
